@@ -616,6 +616,8 @@ class Evaluator:
                     return v
             if base[0] == "obj":
                 return self.sym_for("%s.%s" % (base[1], name), ty)
+            if base[0] == "updf":
+                return base[3] if base[2] == name else self.field_of(base[1], name, ty)
         w = self.bits(ty)
         return ("opaque", "field %s" % name, w)
 
@@ -636,7 +638,15 @@ class Evaluator:
             return ("sel", base, i, w)
         if isinstance(i, tuple) and T.is_k(i):
             return ("elem", base, i[2], ty)
-        return ("obj", "elem(%s)" % _short(base), ty)
+        root = base
+        while isinstance(root, tuple) and root and root[0] == "upd":
+            root = root[1]
+        rname = root[1] if isinstance(root, tuple) and root and root[0] == "obj" else _short(root)
+        try:
+            istr = T.show(i)
+        except Exception:
+            istr = "?"
+        return ("obj", "%s[%s]" % (rname, istr), ty)
 
     def write_place(self, p, v, st):
         h = p[0]
